@@ -1,5 +1,5 @@
 (* C04 — property theorems.  Nothing but statements, `exact`, Print Assumptions. *)
-From G04 Require Import Access AccessCheck AccessProofs Obligations.
+From G04 Require Import Access AccessCheck AccessProofs B64Proofs AcceptProofs Obligations.
 
 (* A request the chain refuses — at ANY position on a connection, whatever its method
    (CONNECT included) — produces no Dial and no Send, and exactly one response: the
@@ -51,6 +51,14 @@ Theorem T04_auth_exact : forall h user pass,
   ~ In 58 user.
 Proof. exact authenticated_exact. Qed.
 Print Assumptions T04_auth_exact.
+
+(* ... and the configured credentials, sent the ordinary way ("Basic " + base64(user:password)),
+   are accepted, whatever other fields the request has (user without colon, bytes < 256) *)
+Theorem T04_right_credentials_accepted : forall h user pass,
+  bytes user -> bytes pass -> ~ In 58 user ->
+  authenticated (h_set auth_header (basic_prefix ++ b64_encode (user ++ 58 :: pass)) h) user pass = true.
+Proof. exact (fun h u p => right_credentials_accepted h u p ob_basic_prefix_nonempty). Qed.
+Print Assumptions T04_right_credentials_accepted.
 
 (* every spelling of the local machine is classified as such: seed names and hosts-file
    aliases in any case, loopback and unspecified literals of both families *)
